@@ -527,28 +527,44 @@ type node struct {
 	parent int
 	op     op
 	depth  int
-	snap   []byte // JSON of the manager (its exported fields are its whole state)
+	key    string // observable state (the manager's exported fields are its whole state)
 }
 
 // restore builds a manager in the given saved state. The seat manager's state
 // consists of exported, JSON-tagged fields only (it is meant to be persisted:
 // NewSeatManagerFromState), so a JSON round trip into a fresh manager clones it.
-func restore(n int, rule string, snap []byte) seat_manager.SeatManager {
+func restore(n int, rule string, key string) seat_manager.SeatManager {
 	sm := seat_manager.NewSeatManager(n, rule)
-	if snap != nil {
-		if err := json.Unmarshal(snap, sm); err != nil {
+	if key != "" {
+		if err := json.Unmarshal(jsonFromKey(n, rule, key), sm); err != nil {
 			panic(err)
 		}
 	}
 	return sm
 }
 
-func snapshot(sm seat_manager.SeatManager) []byte {
-	b, err := json.Marshal(sm)
-	if err != nil {
-		panic(err)
+// jsonFromKey renders the seat manager's persisted form for an observable state.
+func jsonFromKey(n int, rule, key string) []byte {
+	parts := strings.SplitN(key, "|", 2)
+	var d, sb, bb int
+	var init bool
+	fmt.Sscanf(parts[1], "%d,%d,%d,%t", &d, &sb, &bb, &init)
+	var b strings.Builder
+	fmt.Fprintf(&b, `{"max_seat":%d,"seat_data":{`, n)
+	for i := 0; i < n; i++ {
+		if i > 0 {
+			b.WriteByte(',')
+		}
+		ch := parts[0][i]
+		if ch == '.' {
+			fmt.Fprintf(&b, `"%d":null`, i)
+			continue
+		}
+		f := int(ch - 'a')
+		fmt.Fprintf(&b, `"%d":{"id":"%s","is_in":%t,"is_between_dealer_bb":%t,"has_chips":%t}`, i, pid(i), f&1 != 0, f&4 != 0, f&2 != 0)
 	}
-	return b
+	fmt.Fprintf(&b, `},"dealer_seat_id":%d,"sb_seat_id":%d,"bb_seat_id":%d,"rule":%q,"is_init":%t}`, d, sb, bb, rule, init)
+	return []byte(b.String())
 }
 
 func rebuild(n int, rule string, nodes []node, idx int) seat_manager.SeatManager {
@@ -611,7 +627,7 @@ func bfs(n int, rule string, maxStates int, known map[string]bool) bfsResult {
 	seen := map[string]int{observe(seat_manager.NewSeatManager(n, rule), n).key(): 0}
 	res.complete = true
 	for head := 0; head < len(nodes); head++ {
-		base := restore(n, rule, nodes[head].snap)
+		base := restore(n, rule, nodes[head].key)
 		cur := observe(base, n)
 		if head%997 == 0 {
 			// cross-check the cloning shortcut against plain re-execution of the op path
@@ -620,7 +636,7 @@ func bfs(n int, rule string, maxStates int, known map[string]bool) bfsResult {
 			}
 		}
 		for _, o := range enabledOps(cur) {
-			sm := restore(n, rule, nodes[head].snap)
+			sm := restore(n, rule, nodes[head].key)
 			pre, post, err, v := stepAndCheck(sm, n, rule, o)
 			res.transitions++
 			if o.Kind == "rotate" {
@@ -651,7 +667,7 @@ func bfs(n int, rule string, maxStates int, known map[string]bool) bfsResult {
 					continue
 				}
 				seen[k] = len(nodes)
-				nodes = append(nodes, node{parent: head, op: o, depth: nodes[head].depth + 1, snap: snapshot(sm)})
+				nodes = append(nodes, node{parent: head, op: o, depth: nodes[head].depth + 1, key: k})
 				if nodes[head].depth+1 > res.maxDepth {
 					res.maxDepth = nodes[head].depth + 1
 				}
